@@ -251,15 +251,15 @@ def seed_legacy(rng):
 
 
 def pick_qntot(tm, rng):
-    """a total quantum number whose sector is non-trivial (dimension >= 3 if there is one), chosen
-    at random among those of lowest total occupation"""
+    """a total quantum number with a non-trivial sector: one of the (up to) three largest sectors
+    that are not the completely filled / completely empty ones, chosen at random"""
     q = tm.qn_of_states()
     uniq, cnt = np.unique(q, axis=0, return_counts=True)
-    good = [u for u, c in zip(uniq, cnt) if c >= 3]
+    order = sorted(range(len(uniq)), key=lambda i: (-int(cnt[i]), int(np.sum(uniq[i])), tuple(uniq[i])))
+    good = [uniq[i] for i in order if cnt[i] >= 3 and (np.all(uniq[i] >= 1) or uniq.shape[1] == 1 and uniq[i][0] >= 1 or np.all(uniq == 0))][:3]
     if not good:
-        good = [uniq[int(np.argmax(cnt))]]
-    good.sort(key=lambda u: (int(np.sum(u)), tuple(u)))
-    k = int(rng.integers(0, min(2, len(good))))
+        good = [uniq[order[0]]]
+    k = int(rng.integers(0, len(good)))
     return np.array(good[k], dtype=int)
 
 
@@ -278,9 +278,12 @@ def random_mps(tm, rng, qntot, m, tries=6):
     return None
 
 
-def full_rank_mps(tm, rng, qntot, cplx=False, tries=4):
-    """random state of the sector held with exact (not over-complete) bonds: sum of a few random
-    MPS, canonicalised and compressed losslessly, so every bond has full numerical rank."""
+def full_rank_mps(tm, rng, qntot, cplx=False, tries=4, spread=True):
+    """random state of the sector held with exact (not over-complete) bonds and full numerical rank
+    in every quantum-number block that the dynamics can reach: a sum of random MPS, pushed through a
+    short accurate evolution (so that blocks which `Mps.random` leaves empty get populated),
+    canonicalised and compressed losslessly.  The library is used here only to MAKE an input; the
+    oracle works on the dense vector of whatever comes out."""
     big = int(max(exact_bond_dims(tm)))
     for _ in range(tries):
         parts = []
@@ -296,6 +299,22 @@ def full_rank_mps(tm, rng, qntot, cplx=False, tries=4):
                 acc = acc.to_complex().add(parts[2].scale(1j * float(rng.uniform(0.4, 1.0))))
             acc.compress_config = CompressConfig(CompressCriteria.threshold, threshold=1e-12)
             acc = acc.canonicalise().compress()
+            if spread:
+                nh = opnorm(tm.dense_h())
+                mpo = tm.mpo()
+                acc.evolve_config = EvolveConfig(EvolveMethod.prop_and_compress_tdrk, rk_solver="Fehlberg5")
+                if cplx:
+                    for _i in range(3):
+                        acc = acc.evolve(mpo, 0.3 / nh)
+                elif not np.iscomplexobj(np.asarray(mpo[0].array)) and not any(np.iscomplexobj(np.asarray(t.array)) for t in mpo):
+                    # real MPO: imaginary-time Taylor steps keep the state real
+                    acc.evolve_config = EvolveConfig(EvolveMethod.prop_and_compress, guess_dt=-0.1j)
+                    for _i in range(3):
+                        acc = acc.evolve(mpo, -0.3j / nh)
+                    assert not any(np.iscomplexobj(np.asarray(t.array)) for t in acc)
+                # complex MPO (sigma_y terms; only in models without quantum numbers, where
+                # `Mps.random` is generic already): no spreading for real states
+                acc = acc.canonicalise().compress()
             acc.normalize("mps_only")
             acc.coeff = 1
             return acc
